@@ -249,11 +249,8 @@ def invariant(entry, text, out, calls, where):
     return v
 
 
-def outclass(out, hlen):
-    """outcome class used for the abstraction cross-check: line numbers relative to the end of the history"""
+def outclass(out, hlen=None):
+    """outcome class used for the abstraction cross-check (line numbers are judged by the invariant, not here)"""
     if out[0] == "PE":
-        line = out[1]
-        if isinstance(line, int) and line >= 1:
-            return ("PE", line - hlen, out[2])
-        return ("PE", "abs:%r" % (line,), out[2])      # not a line of the text at all (reported by the invariant)
+        return ("PE", out[2])
     return out
